@@ -8,29 +8,73 @@
 From UV Require Export File.Builder.
 Local Open Scope N_scope.
 
-Section Trickle.
-  Variable W : nat.   (* Maxlinks *)
-  Definition depthRepeat : nat := 4.
+Definition depthRepeat : nat := 4.
 
-  Fixpoint subs (d : nat) (acc : list meta) (src : list bytes) : list meta * list bytes :=
+(* a protobuf leaf (DagBuilderParams.RawLeaves = false): a dag-pb block without links whose UnixFS Data carries the chunk.
+   The balanced layout makes leaves of type File (NewLeafDataNode(ft.TFile)); the trickle layout's FillNodeLayer makes them of
+   type Raw (NewLeafDataNode(ft.TRaw)) - found by the correspondence, the first model had File in both. *)
+Definition mk_pbleaf_t (ty : N) (c : bytes) : meta :=
+  let d := encode_data (mk_ud ty (Some c) (Some (blen c)) [] None None None None) in
+  (Pb (Some d) [], blen c, pb_len (Some d) []).
+Definition mk_pbleaf : bytes -> meta := mk_pbleaf_t Data_File.
+Definition mk_pbleaf_raw : bytes -> meta := mk_pbleaf_t Data_Raw.
+
+Section Trickle.
+  Variable leaf : bytes -> meta.   (* mk_leaf: raw leaves; mk_pbleaf: protobuf leaves *)
+  Variable W : nat.   (* Maxlinks *)
+
+  Definition tleaf (src : list bytes) : meta * list bytes :=
+    match src with [] => (leaf [], []) | c :: r => (leaf c, r) end.
+
+  Fixpoint subs_g (d : nat) (acc : list meta) (src : list bytes) : list meta * list bytes :=
     match d with
     | O => (acc, src)
     | S d' =>
-      let '(acc1, src1) := subs d' acc src in
-      rfill (fun s => let '(layer, s1) := rfill rleaf W [] s in
-                      let '(kids, s2) := subs d' layer s1 in (mk_node kids, s2)) depthRepeat acc1 src1
+      let '(acc1, src1) := subs_g d' acc src in
+      rfill (fun s => let '(layer, s1) := rfill tleaf W [] s in
+                      let '(kids, s2) := subs_g d' layer s1 in (mk_node kids, s2)) depthRepeat acc1 src1
     end.
 
-  Definition tnode (d : nat) (s : list bytes) : meta * list bytes :=
-    let '(layer, s1) := rfill rleaf W [] s in
-    let '(kids, s2) := subs d layer s1 in (mk_node kids, s2).
+  Definition tnode_g (d : nat) (s : list bytes) : meta * list bytes :=
+    let '(layer, s1) := rfill tleaf W [] s in
+    let '(kids, s2) := subs_g d layer s1 in (mk_node kids, s2).
 
   Lemma subs_S d acc src :
-    subs (S d) acc src = let '(acc1, src1) := subs d acc src in rfill (tnode d) depthRepeat acc1 src1.
+    subs_g (S d) acc src = let '(acc1, src1) := subs_g d acc src in rfill (tnode_g d) depthRepeat acc1 src1.
   Proof. reflexivity. Qed.
 
   (* trickle.Layout on a non-empty chunk list *)
-  Definition trickle_layout (chunks : list bytes) : blk * N :=
-    let '(layer, s1) := rfill rleaf W [] chunks in
-    let m := mk_node (fst (subs (length chunks) layer s1)) in (m_link m, m_stored m).
+  Definition trickle_layout_g (chunks : list bytes) : blk * N :=
+    let '(layer, s1) := rfill tleaf W [] chunks in
+    let m := mk_node (fst (subs_g (length chunks) layer s1)) in (m_link m, m_stored m).
+
+  (* importer/balanced.Layout with this kind of leaf (Builder.fill_node_rec / layout_loop / ref_layout are the raw-leaf instance) *)
+  Fixpoint gfill_node_rec (depth : nat) (seeded : list meta) (src : list bytes) : meta * list bytes :=
+    match depth with
+    | O => (mk_node seeded, src)
+    | S d =>
+      let '(children, src') :=
+          rfill (match d with O => tleaf | S _ => gfill_node_rec d [] end) (W - length seeded) seeded src in
+      (mk_node children, src')
+    end.
+
+  Fixpoint glayout_loop (fuel depth : nat) (root : meta) (src : list bytes) : meta :=
+    match src with
+    | [] => root
+    | _ =>
+      match fuel with
+      | O => root
+      | S f => let '(r', src') := gfill_node_rec depth [root] src in glayout_loop f (S depth) r' src'
+      end
+    end.
+
+  Definition balanced_layout_g (chunks : list bytes) : blk * N :=
+    match chunks with
+    | [] => (m_link (leaf []), m_stored (leaf []))
+    | c :: r => let m := glayout_loop (S (length r)) 1 (leaf c) r in (m_link m, m_stored m)
+    end.
 End Trickle.
+
+Notation subs := (subs_g mk_leaf).
+Notation tnode := (tnode_g mk_leaf).
+Notation trickle_layout := (trickle_layout_g mk_leaf).
